@@ -287,3 +287,40 @@ Example rottoric_path_syndrome_ex : exists p, rt_path 4 6 (5, 3) (-2, 6) (rt_ide
   syndrome_of (rt_stabilizers 4 6) (rc_to_bsf p) =
   map (fun q => xorb (rc_idx_eqb q (5, 3)) (rc_idx_eqb q (4, 2))) (rt_plaquette_indices 4 6).
 Proof. apply (rottoric_path_syndrome_all 4 6 (5, 3) (-2, 6)); reflexivity || lia. Qed.
+
+(* ---------- weight: never more than the decoder's step count max(|x_steps|, |y_steps|), every size ---------- *)
+Lemma rc_count_flip_at_le k : forall u, (count_true (rc_flip_at k u) <= S (count_true u))%nat.
+Proof. induction k as [|k IH]; intros [|x u]; cbn; try lia; [destruct x; cbn; lia|]. specialize (IH u). lia. Qed.
+Lemma rc_count_flips_le ks : forall u, (count_true (rc_flips ks u) <= count_true u + length ks)%nat.
+Proof.
+  induction ks as [|k ks IH]; intros u; cbn [rc_flips fold_left length]; [lia|].
+  change (fold_left (fun a i => rc_flip_at i a) ks (rc_flip_at k u)) with (rc_flips ks (rc_flip_at k u)).
+  specialize (IH (rc_flip_at k u)). pose proof (rc_count_flip_at_le k u). lia.
+Qed.
+Theorem rottoric_path_weight_le_all : forall rows cols a b tx ty,
+  rt_translation rows cols a b = Some (tx, ty) ->
+  exists p, rt_path rows cols a b (rt_identity rows cols) = Some p /\
+            (bsf_wt (rc_to_bsf p) <= Z.to_nat (Z.max (Z.abs tx) (Z.abs ty)))%nat.
+Proof.
+  intros rows cols a b tx ty Ht.
+  assert (HL : exists L, rt_path_indices rows cols a b = Some L /\ (length L <= Z.to_nat (Z.max (Z.abs tx) (Z.abs ty)))%nat).
+  { destruct (rc_idx_eqb a b) eqn:Eab.
+    - exists []. unfold rt_path_indices. rewrite Eab. split; [reflexivity|cbn; lia].
+    - destruct (rt_path_indices_defined rows cols a b tx ty Ht) as (l & Hl & Hn).
+      + intros E. subst b. now rewrite rc_idx_eqb_refl in Eab.
+      + exists l. split; [exact Hl|lia]. }
+  destruct HL as (L & HL & Hlen). unfold rt_path. rewrite HL. eexists. split; [reflexivity|].
+  rewrite rt_sites_flips. unfold rc_apply_flips, rt_identity, rc_identity, rc_to_bsf. cbn [rc_xs rc_zs].
+  set (n := rt_n rows cols). set (ks := map (rt_flat rows cols) L).
+  assert (Hc : (count_true (rc_flips ks (zeros n)) <= length L)%nat).
+  { pose proof (rc_count_flips_le ks (zeros n)) as H. rewrite rc_count_zeros in H. unfold ks in H. now rewrite map_length in H. }
+  assert (Hl : length (rc_flips ks (zeros n)) = n) by now rewrite rc_flips_length, zeros_length.
+  destruct (rottoric_is_z_plaquette a); cbn [xbit zbit]; [rewrite rc_wt_x_only by auto|rewrite rc_wt_z_only by auto]; lia.
+Qed.
+(* full statement (equality) — proved for all even sizes <= 8x8 in RotToricBounded.rottoric_paths_upto_8 *)
+Definition rottoric_path_weight_statement : Prop := forall rows cols a b tx ty,
+  2 <= rows -> rows mod 2 = 0 -> 2 <= cols -> cols mod 2 = 0 ->
+  rt_translation rows cols a b = Some (tx, ty) ->
+  exists p, rt_path rows cols a b (rt_identity rows cols) = Some p /\
+            bsf_wt (rc_to_bsf p) = Z.to_nat (Z.max (Z.abs tx) (Z.abs ty)).
+Definition rottoric_path_weight_partial := rottoric_path_weight_le_all.
